@@ -140,6 +140,7 @@ type c24CfgKey struct {
 	mode       string
 	aol        bool
 	sendKeySet bool
+	useKeys    bool
 	useKeyIDs  bool
 }
 
@@ -157,7 +158,9 @@ type c24Env struct {
 func c24AccessKeys(dir string, k c24CfgKey) (config.AccessKeyConfig, error) {
 	var b strings.Builder
 	b.WriteString("General:\n  ConfigurationVersion: 2\nAccessKeys:\n")
-	fmt.Fprintf(&b, "  ReceiveKeys:\n    - %s\n", c24KeyLiteral["listed"])
+	if k.useKeys {
+		fmt.Fprintf(&b, "  ReceiveKeys:\n    - %s\n", c24KeyLiteral["listed"])
+	}
 	if k.useKeyIDs {
 		fmt.Fprintf(&b, "  ReceiveKeyIDs:\n    - %s\n", c24KeyID(c24KeyLiteral["byid"]))
 	}
@@ -166,7 +169,7 @@ func c24AccessKeys(dir string, k c24CfgKey) (config.AccessKeyConfig, error) {
 	}
 	fmt.Fprintf(&b, "  SendKeyMode: %s\n", k.mode)
 	fmt.Fprintf(&b, "  AcceptOnlyListedKeys: %v\n", k.aol)
-	cpath := filepath.Join(dir, fmt.Sprintf("c24-%s-%v-%v-%v.yaml", k.mode, k.aol, k.sendKeySet, k.useKeyIDs))
+	cpath := filepath.Join(dir, fmt.Sprintf("c24-%s-%v-%v-%v-%v.yaml", k.mode, k.aol, k.sendKeySet, k.useKeys, k.useKeyIDs))
 	rpath := filepath.Join(dir, "c24-rules.yaml")
 	if err := os.WriteFile(cpath, []byte(b.String()), 0o600); err != nil {
 		return config.AccessKeyConfig{}, err
@@ -518,13 +521,13 @@ func (h *c24Harness) env(k c24CfgKey) (*c24Env, error) {
 
 func (h *c24Harness) Reset(init map[string]any) error {
 	k := c24CfgKey{mode: verifkit.Str(init, "mode"), aol: verifkit.Bool(init, "aol"),
-		sendKeySet: verifkit.Bool(init, "sendKeySet"), useKeyIDs: verifkit.Bool(init, "useKeyIDs")}
+		sendKeySet: verifkit.Bool(init, "sendKeySet"), useKeys: verifkit.Bool(init, "useKeys"), useKeyIDs: verifkit.Bool(init, "useKeyIDs")}
 	e, err := h.env(k)
 	if err != nil {
 		return err
 	}
 	h.cur = e
-	h.vec = map[string]any{"mode": k.mode, "aol": k.aol, "sendKeySet": k.sendKeySet, "useKeyIDs": k.useKeyIDs, "key": verifkit.Str(init, "key")}
+	h.vec = map[string]any{"mode": k.mode, "aol": k.aol, "sendKeySet": k.sendKeySet, "useKeys": k.useKeys, "useKeyIDs": k.useKeyIDs, "key": verifkit.Str(init, "key")}
 	h.outs = []c24Outcome{}
 	return nil
 }
